@@ -4,10 +4,13 @@ use std::sync::Arc;
 pub mod c01;
 pub mod c02;
 pub mod c03;
+pub mod c04;
+pub mod c05;
 pub mod c06;
 pub mod c07;
 pub mod c10;
 pub mod c11;
+pub mod c18;
 pub mod c19;
 
 pub fn by_id(id: &str) -> Option<Arc<dyn Check>> {
@@ -15,10 +18,13 @@ pub fn by_id(id: &str) -> Option<Arc<dyn Check>> {
         "C01" => Arc::new(c01::C01),
         "C02" => Arc::new(c02::C02),
         "C03" => Arc::new(c03::C03),
+        "C04" => Arc::new(c04::C04),
+        "C05" => Arc::new(c05::C05),
         "C06" => Arc::new(c06::C06),
         "C07" => Arc::new(c07::C07),
         "C10" => Arc::new(c10::C10),
         "C11" => Arc::new(c11::C11),
+        "C18" => Arc::new(c18::C18),
         "C19" => Arc::new(c19::C19),
         _ => return None,
     })
